@@ -308,7 +308,7 @@ theorem chunkMs_smSourceEvs (sm : SMap) : chunkMs (smSourceEvs sm) = [] :=
 theorem chunkMs_smNameEvs (sm : SMap) : chunkMs (smNameEvs sm) = [] :=
   chunkMs_noChunk _ (by intro e he; simp only [smNameEvs, List.mem_map] at he; obtain ⟨i, _, rfl⟩ := he; rfl)
 
-theorem linesOK_of_sorted : ∀ (ms : List Mapping) (l c : Nat), sortedFrom l c ms → linesOK l ms := by
+theorem linesOK_of_sorted' : ∀ (ms : List Mapping) (l c : Nat), sortedFrom l c ms → linesOK l ms := by
   intro ms
   induction ms with
   | nil => intros; trivial
@@ -338,7 +338,7 @@ theorem streamSMFinal_lookEq (t : Text) (sm : SMap) (hs : sortedFrom 1 0 (decode
     have e2 : startPos.col = 0 := rfl
     rcases hlt with h | h <;> rcases hge with g | g <;> omega
   · simp only [chunkMs_app, chunkMs_smSourceEvs, chunkMs_smNameEvs, List.nil_append, lookupCols]
-    exact smFinalGo_look (genInfo t) _ _ hlt _ 0 none none (linesOK_mono (Nat.zero_le _) _ (linesOK_of_sorted _ _ _ hs)) rfl (fun h => absurd rfl h)
+    exact smFinalGo_look (genInfo t) _ _ hlt _ 0 none none (linesOK_mono (Nat.zero_le _) _ (linesOK_of_sorted' _ _ _ hs)) rfl (fun h => absurd rfl h)
 
 /-- … and so does the normal stream (this is C08's attribution theorem read as a statement about lookups) -/
 theorem streamSMFull_lookEq (t : Text) (sm : SMap) (ha : IsAscii t) (hl : t.length ≤ USIZE_MAX) (hs : sortedFrom 1 0 (decode sm.mappings))
